@@ -77,6 +77,15 @@ func (r *runner) fail(key, what string, replay any) {
 	r.c.Fail(key, what, replay)
 }
 
+// failRep reports one oracle report produced by a single-input run.
+func (r *runner) failRep(x report, origin string) {
+	if x.Kind == "alloc-unsited" {
+		r.c.Inconclusive("%s mode=%s: allocation-bound exceedance (%d B for %d input bytes) whose site could not be attributed", x.Target, x.Mode, x.Alloc, x.InputLen)
+		return
+	}
+	r.fail(x.Key, fmt.Sprintf("%s mode=%s input_len=%d: %s: %s", x.Target, x.Mode, x.InputLen, x.Kind, x.Msg), replayCase(x.Target, x.Corpus, origin))
+}
+
 func loadKnownKeys() map[string]bool {
 	m := map[string]bool{}
 	files, _ := filepath.Glob(filepath.Join(vf.VerifRoot, "known-findings.d", "*.jsonl"))
@@ -307,6 +316,22 @@ func (r *runner) failReports(dir, origin string) (hangs []report) {
 			hangs = append(hangs, rp)
 			continue
 		}
+		if rp.Kind == "alloc-unsited" {
+			// over the bound in the worker, but the worker could not name the site (loaded
+			// machine): repeat the input alone, where the profiled re-run has the process to itself
+			_, reps := r.runSingle(rp.Target, rp.Corpus, "unsited", 45*time.Minute)
+			done := false
+			for _, x := range reps {
+				if x.Kind == "alloc" || x.Kind == "panic" {
+					r.failRep(x, origin)
+					done = true
+				}
+			}
+			if !done {
+				r.c.Inconclusive("%s mode=%s: an allocation-bound exceedance (%d B for %d input bytes) could not be attributed to a site, neither in the worker nor when repeated alone", rp.Target, rp.Mode, rp.Alloc, rp.InputLen)
+			}
+			continue
+		}
 		what := fmt.Sprintf("%s mode=%s input_len=%d: %s: %s | top of stack: %s", rp.Target, rp.Mode, rp.InputLen, rp.Kind, rp.Msg, firstLines(stackAfterPanic(rp.Stack), 6))
 		r.fail(rp.Key, what, replayCase(rp.Target, rp.Corpus, origin))
 		r.c.Count("oracle_reports_"+rp.Kind, 1)
@@ -366,7 +391,7 @@ func (r *runner) confirmHang(rp report, origin string) string {
 		return key
 	}
 	for _, x := range reps { // the re-run may instead surface a panic / alloc report
-		r.fail(x.Key, fmt.Sprintf("%s mode=%s: %s: %s", x.Target, x.Mode, x.Kind, x.Msg), replayCase(x.Target, x.Corpus, origin))
+		r.failRep(x, origin)
 	}
 	if res.timeout {
 		c.Inconclusive("hang suspect %s: the 10x re-run itself timed out after %v", rp.Key, res.wall)
@@ -470,7 +495,7 @@ func (r *runner) handleCrasher(target, crasherRel string, fo fuzzOutcome, worker
 			r.confirmHang(x, origin)
 			continue
 		}
-		r.fail(x.Key, fmt.Sprintf("%s mode=%s input_len=%d: %s: %s", x.Target, x.Mode, x.InputLen, x.Kind, x.Msg), replayCase(x.Target, x.Corpus, origin))
+		r.failRep(x, origin)
 	}
 	if hung {
 		return false
@@ -497,7 +522,7 @@ func (r *runner) handleCrasher(target, crasherRel string, fo fuzzOutcome, worker
 				r.confirmHang(x, origin)
 				continue
 			}
-			r.fail(x.Key, fmt.Sprintf("%s mode=%s: %s: %s", x.Target, x.Mode, x.Kind, x.Msg), replayCase(x.Target, x.Corpus, origin))
+			r.failRep(x, origin)
 		}
 	case res.code == 0:
 		c.Inconclusive("%s: the engine saved crasher %s (%s) but it passes when replayed alone", target, filepath.Base(crasherRel), tail(strings.TrimSpace(fo.res.out), 300))
@@ -635,9 +660,7 @@ func (r *runner) fuzzRun(target string, budget, workers int, tr *targetResult) {
 			tr.Accepted += st.OK
 			tr.PanicsRecovered += st.Panics
 			tr.ModeSkips += st.Skipped
-			if st.AllocUnsited > 0 {
-				c.Inconclusive("%s: %d allocation-bound exceedances could not be attributed to a site (profiled re-run did not finish) and were not reported", k, st.AllocUnsited)
-			}
+			c.Count("alloc_exceedances_not_attributed_in_worker", int(st.AllocUnsited))
 			trackAlloc(tr, st)
 			c.Eval(k, st.OK > 0)
 			c.Seen("decode_modes", k)
@@ -827,7 +850,7 @@ func run(c *vf.Ctx) {
 	defer func() { <-repoDone }()
 
 	// ---- per-target seed run + fuzz run: 2 targets x 2 workers (+2 above = at most 6 fuzz workers)
-	unit := c.N(4000, 40000)
+	unit := c.N(4000, 12000)
 	results := make([]*targetResult, len(plan))
 	for i, p := range plan {
 		results[i] = &targetResult{Target: p.name, Seeds: sd.count[p.name], SeedBytes: sd.bytes[p.name]}
@@ -904,7 +927,7 @@ func (r *runner) replay(path string) {
 	res, reps := r.runSingle(rf.Case.Target, string(corpus), "replay", 45*time.Minute, budget...)
 	c.Eval("replay", true)
 	for _, x := range reps {
-		r.fail(x.Key, fmt.Sprintf("%s mode=%s: %s: %s", x.Target, x.Mode, x.Kind, x.Msg), replayCase(x.Target, x.Corpus, "replay"))
+		r.failRep(x, "replay")
 	}
 	if key, msg, stack := classifyCrash(rf.Case.Target, res.out); key != "" {
 		r.fail(key, fmt.Sprintf("%s: process died: %s | %s", rf.Case.Target, msg, firstLines(stackAfterPanic(stack), 8)), replayCase(rf.Case.Target, string(corpus), "replay"))
